@@ -31,11 +31,13 @@ META["explanation"] += " " + '(PR-resize) a member that gives a table a computed
 HT = "Qentem::HashTable::"
 
 
+META["explanation"] += " " + 'Taken over unchanged from other modules because a seeded change to this property was reported by them (rules.common.shared): O12-descendant from C16; ASYM from C15.'
+
 def stmts_text(f, root):
     return [f.text(s) for s in f.nodes[root].get("ch", [])]
 
 
-def run(ctx):
+def _run_own(ctx):
     m = ctx.pattern()
     rules = []
 
@@ -650,3 +652,12 @@ def rule_bucket_wipe(ctx, m):
             r.ob(f.sig if len(m.fns(f.q, required=False)) > 1 else f.q, f.text(c)[:70], ok,
                  "extent derives from %s" % (", ".join(sorted(calls_in)) or "no table quantity") + ("" if ok else ": buckets beyond it keep chain heads into items that no longer exist"), f.loc(c))
     return r
+
+
+def run(ctx):
+    rules_ = list(_run_own(ctx) or [])
+    from rules.common import shared
+    have = set(r_.rid for r_ in rules_)
+    rules_ += [r_ for r_ in shared(ctx, 'C16', ['O12-descendant']) if r_.rid not in have]
+    rules_ += [r_ for r_ in shared(ctx, 'C15', ['ASYM']) if r_.rid not in have]
+    return rules_
